@@ -4,6 +4,7 @@ log_prob is executed with the MADE forward pass replaced by its C06 contract (ou
 0..i-1 and of the context).  Clauses: the density factorises into one-dimensional conditionals (factor i mentions x_i and, through the
 conditioner, x_<i only), every factor is a mixture of Gaussians with weights that sum to one and positive scales, and the (logit, mean,
 std) triple of component k of feature i is taken from the units i*3K + 3k + {0,1,2}.  Normalisation then follows by lemma 4f."""
+import math
 import numpy as np
 import torch, z3
 from tsv.core import Sym, P, C, toreal, rv, R, Ctx
@@ -14,6 +15,45 @@ from .common import *
 from .autoreg import MadeStub
 from nflows.nn.nde import made as made_n
 from nflows.distributions.mixture import MADEMoG
+
+
+import itertools as _it
+LAYOUTS = [(lay, perm) for lay in ("component-major", "role-major") for perm in _it.permutations(range(3))]
+
+
+def unit_at(unit, K, layout, k, role):
+    """the MADE unit holding (role 0: logit, 1: mean, 2: unconstrained std) of component k under a layout of the feature's 3K-block"""
+    lay, perm = layout
+    return unit(3 * k + perm[role]) if lay == "component-major" else unit(perm[role] * K + k)
+
+
+def mog_spec_total(D, K, px, b, cargs, eps, layout):
+    from tsv.ops import s_exp, s_log, s_softplus
+    from tsv.ops_move import softmax_rows
+    total = rv(0)
+    for i in range(D):
+        args = [toreal(t) for t in px[b, :i]] + cargs
+        unit = lambda r, i=i, args=args: (z3.Function(f"made_{i}_{r}", *([R] * (len(args) + 1)))(*args) if args else z3.Const(f"made_{i}_{r}_c", R))
+        logits = [unit_at(unit, K, layout, k, 0) for k in range(K)]; means = [unit_at(unit, K, layout, k, 1) for k in range(K)]; us = [unit_at(unit, K, layout, k, 2) for k in range(K)]
+        logpi = softmax_rows(np.array([logits], dtype=object), 1, True)[0]
+        comps = []
+        for k in range(K):
+            sd = s_softplus(us[k]) + eps
+            z = (px[b, i] - means[k]) / sd
+            comps.append(s_exp(logpi[k] - rv(1) / 2 * (T.logf(2 * T.PI) + 2 * s_log(sd) + z * z)))
+        tot = comps[0]
+        for cc in comps[1:]: tot = tot + cc
+        total = total + s_log(tot)
+    return total
+
+
+def find_logprob_layout(ctx, D, K, px, b, cargs, eps, plb):
+    from tsv.solve import prove
+    for layout in LAYOUTS:
+        goal = plb == mog_spec_total(D, K, px, b, cargs, eps, layout)
+        if z3.is_true(z3.simplify(goal)) or prove(ctx.hyps(), goal, budget_s=3.0, want_model=False)[0] == "unsat":
+            return layout
+    return None
 
 
 def mog_logprob_harness(D, K, with_context):
@@ -342,8 +382,94 @@ def mog_sample_harness(D, K, Cn, n):
     return hn
 
 
+def mog_consistency_harness(D, K):
+    """log_prob and sample of one MixtureOfGaussiansMADE read the SAME layout of a feature's 3K-unit block (each is correct under any regular layout
+    on its own; the density that sample() draws from is the one log_prob evaluates only if they agree)"""
+    def run(h, ctx):
+        m = made_n.MixtureOfGaussiansMADE(D, 4, context_features=None, num_blocks=1, num_mixture_components=K, custom_initialization=False)
+        m.eval()
+        stub = MadeStub(D, 3 * K)
+        h.m = m
+        x = h.inp("x", (1, D))
+        orig = made_n.MADE.forward; origc = made_n.distributions.Categorical
+        made_n.MADE.forward = lambda self, inputs, context=None: stub(inputs, context)
+        made_n.distributions.Categorical = StubCategorical
+        StubCategorical.made = []
+        try:
+            lp = m.log_prob(x)
+            smp = m.sample(1)
+            h.cats = list(StubCategorical.made)
+            h.noise = [s_ for nm, s_ in ctx.notes.get("random_draws", []) if nm == "randn"]
+            return lp, smp
+        finally:
+            made_n.MADE.forward = orig; made_n.distributions.Categorical = origc
+
+    def post(h, ctx, value):
+        from tsv.ops import s_softplus
+        from tsv.ops_move import decide_int
+        lp, smp = value
+        eps = rv(h.m.epsilon)
+        px = P(h.inputs["x"])
+        l_lp = find_logprob_layout(ctx, D, K, px, 0, [], eps, P(lp)[0])
+        ensure(h, ctx, "C05.mog.log_prob-matches-a-regular-unit-layout", z3.BoolVal(l_lp is not None))
+        ps = P(smp)
+        ok_shape = tuple(ps.shape) == (1, D) and len(h.cats) == D and len(h.noise) == D
+        ensure(h, ctx, "C05.mog.sample-one-draw-per-feature-and-row", z3.BoolVal(bool(ok_shape)))
+        if l_lp is None or not ok_shape:
+            return
+        row = ps[0]
+        l_s = None
+        for layout in LAYOUTS:
+            good = True
+            for i in range(D):
+                args = [toreal(t) for t in row[:i]]
+                unit = lambda u, i=i, args=args: (z3.Function(f"made_{i}_{u}", *([R] * (len(args) + 1)))(*args) if args else z3.Const(f"made_{i}_{u}_c", R))
+                k = decide_int(h.cats[i].draws.reshape(-1)[0], 0, K)
+                want = unit_at(unit, K, layout, k, 1) + P(h.noise[i])[0] * (s_softplus(unit_at(unit, K, layout, k, 2)) + eps)
+                if not (z3.eq(row[i], want) or z3.eq(z3.simplify(row[i] - want), rv(0))):
+                    good = False; break
+            if good:
+                l_s = layout; break
+        ensure(h, ctx, "C05.mog.sample-matches-a-regular-unit-layout", z3.BoolVal(l_s is not None))
+        ensure(h, ctx, "C05.mog.log_prob-and-sample-read-the-same-unit-layout", z3.BoolVal(l_s is not None and l_s[0] == l_lp[0] and tuple(l_s[1][1:]) == tuple(l_lp[1][1:])),
+               meta={"log_prob": str(l_lp), "sample": str(l_s)})
+
+    def native_call(h, inp):
+        torch.manual_seed(5)
+        m = made_n.MixtureOfGaussiansMADE(D, 8, context_features=None, num_blocks=1, num_mixture_components=K, custom_initialization=False)
+        m.eval()
+        with torch.no_grad():
+            for p_ in m.parameters(): p_.mul_(4.0)
+        return m
+
+    def native_clauses(h, inp, m):
+        # feature 0 has no inputs: its conditional is a fixed 1-D mixture; sample mean / variance against the density's moments (quadrature)
+        torch.manual_seed(6)
+        N = 20000
+        s0 = m.sample(N)[:, 0]
+        g = torch.linspace(-30.0, 30.0, 6001)
+        pts = torch.zeros(len(g), D); pts[:, 0] = g
+        with torch.no_grad():
+            out = m.forward(pts).reshape(len(g), D, K, 3) if False else None
+        # density of x_0 alone: integrate out by evaluating the first factor through log_prob differences is not available; use the library's own layout-free route:
+        # p(x_0) = exp(log_prob([x_0, x_1])) / p(x_1 | x_0); for D == 1 it is log_prob itself
+        if D != 1:
+            return {}
+        with torch.no_grad():
+            dens = torch.exp(m.log_prob(g[:, None]))
+        w = float(g[1] - g[0])
+        mean = float((dens * g).sum() * w); var = float((dens * g * g).sum() * w) - mean ** 2
+        z = abs(float(s0.mean()) - mean) / math.sqrt(max(var, 1e-12) / N)
+        return {"C05.mog.log_prob-and-sample-read-the-same-unit-layout": z < 6}
+    hn = Harness(f"MoGMADE_log_prob_vs_sample[D={D},K={K}]", run, post, native_call=native_call, native_clauses=native_clauses, check_defined=False, sample=lambda h, rng: {"x": rng.normal(size=(1, D))},
+                 functions=[made_n.MixtureOfGaussiansMADE.log_prob, made_n.MixtureOfGaussiansMADE.sample])
+    hn.native_float32 = False
+    hn.native_tries = 2
+    return hn
+
+
 def mog_sample_harnesses(tier):
-    hs = [mog_sample_harness(2, 1, 2, 2), mog_sample_harness(2, 2, 0, 1), mog_sample_harness(2, 2, 1, 1)]
+    hs = [mog_sample_harness(2, 1, 2, 2), mog_sample_harness(2, 2, 0, 1), mog_sample_harness(2, 2, 1, 1), mog_consistency_harness(1, 2), mog_consistency_harness(2, 2)]
     if tier != "quick":
         hs += [mog_sample_harness(3, 1, 2, 3), mog_sample_harness(2, 2, 2, 1), mog_sample_harness(1, 3, 0, 2)]
     return hs
